@@ -5,6 +5,7 @@
 #include "common.hpp"
 #include "labels.hpp"
 #include "observe.hpp"
+#include <climits>
 
 namespace vf {
 
@@ -86,5 +87,39 @@ struct PairPicker {
         return e;
     }
 };
+
+// A call the library must reject, placed inside a history: a vertex index that is out of range (size, size+1, size+2 or
+// UINT_MAX, in the first, the second or both positions) or a resize to fewer vertices. Such a call throws, so the sequence
+// denotes the same graph with or without it - also after a later resize has made the rejected index a vertex, which is
+// when anything the rejected call left behind becomes observable. Whether the call IS rejected is C07's verdict: a history
+// in which it is not is abandoned, not reported.
+struct RejectedArgs {
+    VertexIndex a = 0, b = 0;
+    bool shrink = false;
+    unsigned newSize = 0;
+    unsigned growBy = 0; // a resize by this many vertices makes every index of the call valid (0: not worth it, UINT_MAX)
+};
+inline RejectedArgs pickRejected(Rng &r, unsigned n) {
+    RejectedArgs x;
+    if (n > 0 && r.chance(1, 6)) {
+        x.shrink = true;
+        x.newSize = r.u(n);
+        return x;
+    }
+    bool huge = r.chance(1, 8);
+    VertexIndex bad = huge ? UINT_MAX : n + r.u(3);
+    VertexIndex bad2 = huge ? UINT_MAX - r.u(2) : n + r.u(3);
+    VertexIndex ok = n ? r.u(n) : bad2;
+    unsigned pos = r.u(4);
+    if (pos == 0) { x.a = bad; x.b = ok; }
+    else if (pos == 1) { x.a = ok; x.b = bad; }
+    else if (pos == 2) { x.a = bad; x.b = bad2; }
+    else { x.a = bad; x.b = bad; }
+    VertexIndex mx = 0;
+    if (x.a >= n) mx = std::max(mx, x.a);
+    if (x.b >= n) mx = std::max(mx, x.b);
+    x.growBy = huge ? 0 : mx - n + 1;
+    return x;
+}
 
 } // namespace vf
